@@ -113,7 +113,7 @@ func (c *Ctx) journalInvalidation(prefix string) {
 		// PERSIST invalidation zeroes at least as many bytes as the reader requires to be zero
 		inv := c.F("litefs.(*DB).invalidateJournal")
 		key, rule := prefix+"/persist-clears-whole-header", "K8 writer/reader agreement (proven buffer lengths)"
-		desc := "invalidateJournal(PERSIST) overwrites at least as many leading bytes with zeroes as JournalReader.Next requires to be zero to treat the journal as finalised"
+		desc := "invalidateJournal(PERSIST) overwrites at least as many leading bytes with zeroes as JournalReader.Next needs to treat the journal as finalised (the magic when every header must carry it, else the whole zero-tested header)"
 		if c.need(key, rule, desc, inv, "litefs.(*DB).invalidateJournal") {
 			var wlen, rlen int64 = -1, -1
 			for _, in := range Instrs(inv, p.Calls("os.(*File).Write", "os.(*File).WriteAt")) {
@@ -121,6 +121,11 @@ func (c *Ctx) journalInvalidation(prefix string) {
 			}
 			for _, in := range Instrs(c.F(nx), p.PlainCalls("litefs.isByteSliceZero")) {
 				rlen = c.lenLB(callVals(in)[0], 0)
+			}
+			// a header without the magic is ignored by the reader when every segment header must carry it:
+			// then clearing the 8 magic bytes is enough; otherwise everything the zero-test covers must be cleared
+			if c.P.CountGuardEdges(c.F(nx), G(`\(0 < p0\.offset\)`, true)) == 0 && rlen > 8 {
+				rlen = 8
 			}
 			if wlen < 0 || rlen < 0 || wlen < rlen {
 				c.fail(key, rule, desc, "a header whose magic is zeroed but whose remaining fields survive is still a hot journal to LiteFS's own reader: the next recovery rolls the old pages back over the new image", fmt.Sprintf("writer clears %d byte(s), reader tests %d", wlen, rlen), 1)
